@@ -73,6 +73,12 @@ def payload(kind):
             _CACHE[kind] = akai_payload()
         elif kind == "akai2352":
             _CACHE[kind] = C.mode1_2352(akai_payload())
+        elif kind == "akai2352_scratched":
+            # one raw sector inside FRAG (second quarter of AKAI sector 4 = raw sector 17) has a wiped 12-byte sync pattern; its
+            # 2048 data bytes are intact. NEXT, the other partition and every directory lie behind it in the file
+            b = bytearray(C.mode1_2352(akai_payload()))
+            b[17 * 2352:17 * 2352 + 12] = bytes(12)
+            _CACHE[kind] = bytes(b)
         elif kind == "roland":
             _CACHE[kind] = roland_payload()
         elif kind.startswith("roland_co"):
@@ -141,6 +147,15 @@ class Ctx:
 
     def do(self, part, op):
         """returns bytes/str observation of that step"""
+        if self.kind.endswith("_scratched") and op[0] in ("read", "seek"):
+            # on a damaged image a call may fail; that it fails (and how) is then the observation of this step
+            try:
+                return self._do(part, op)
+            except Exception as e:   # noqa
+                return b"<raised:" + type(e).__name__.encode() + b">"
+        return self._do(part, op)
+
+    def _do(self, part, op):
         if op[0] == "read":
             return self.stream(tuple(part["path"])).read(op[1])
         if op[0] == "seek":
@@ -283,6 +298,15 @@ def configs(quick):
     out.append({"name": "roland:two-samples-one-chain", "kind": "roland", "parts": [
         P(HA, ("read", 4096), ("read", CL), ("read", 4096)), P(HB, ("read", 2), ("read", CL + 1), ("read", 4096)),
         P(R0, ("read", 4096), ("read", 4096))]})
+    # a raw-sector image with one scratched sync pattern inside FRAG: whatever a reader makes of that sector, what the
+    # OTHER streams deliver must not depend on whether / when FRAG walked into it
+    kind = "akai2352_scratched"
+    out.append({"name": kind + ":3x2+dir", "kind": kind, "parts": [
+        P(A1, ("read", 4096), ("read", -1)), P(A2, ("read", 1), ("read", S + 1)),
+        P(AB, ("seek", 100), ("read", 4096)), D]})
+    out.append({"name": kind + ":2x4", "kind": kind, "parts": [
+        P(A1, ("read", 2), ("read", 4096), ("read", 4096), ("read", 4096)),
+        P(A2, ("read", S + 1), ("seek", 3), ("read", 1), ("read", 4096))]})
     T1, T2, T3 = ("ONE",), ("TWO",), ("THREE",)
     out.append({"name": "cdda:3x2", "kind": "cdda", "parts": [
         P(T1, ("read", 4096), ("read", 2352 + 1)), P(T2, ("read", 1), ("read", 4096)), P(T3, ("seek", 2352), ("read", 4096))]})
@@ -343,20 +367,24 @@ def _baseline_main(quick, name, idx):
         st = Ctx(cfg["kind"]).stream(tuple(parts[idx]["path"]))
         st.seek(0, 0)
         content = b""
-        while True:
-            b = st.read(4096)
-            if not b:
-                break
-            content += b
-        pos, outs = 0, []
-        for op in parts[idx]["ops"]:
-            if op[0] == "seek":
-                pos = min(max(op[1], 0), len(content))
-            else:
-                k = len(content) - pos if (op[1] is None or op[1] < 0) else min(op[1], len(content) - pos)
-                outs.append(content[pos:pos + k])
-                pos += k
-        sim = hashlib.sha1(b"".join(outs)).hexdigest()
+        try:
+            while True:
+                b = st.read(4096)
+                if not b:
+                    break
+                content += b
+        except Exception:   # noqa -- a stream that cannot be read to its end (damaged image) has no content to compare with:
+            content = None  #         the interleavings alone decide
+        if content is not None:
+            pos, outs = 0, []
+            for op in parts[idx]["ops"]:
+                if op[0] == "seek":
+                    pos = min(max(op[1], 0), len(content))
+                else:
+                    k = len(content) - pos if (op[1] is None or op[1] < 0) else min(op[1], len(content) - pos)
+                    outs.append(content[pos:pos + k])
+                    pos += k
+            sim = hashlib.sha1(b"".join(outs)).hexdigest()
     if all(op[0] == "next" for op in parts[idx]["ops"]) and "path2" in parts[idx]:
         # the stereo steps must deliver, channel by channel, what isolated sequential reads of the two samples deliver
         # (a prefix of it: the export may stop early, e.g. at the end of an incomplete image)
@@ -388,7 +416,7 @@ class Check(CheckBase):
     level = "model_checking"
     title = "Sample streams sharing one image file handle do not disturb one another"
     rule = ("per configuration (AKAI raw and inside MODE1/2352: two files of one partition, one fragmented, one file of a "
-            "second partition, an L/R pair through the transcoder (also on an image file that ends inside the right half), a three-sector pair with a contiguous left and a fragmented right half, lazy directory listings; Roland: forward + reverse-mode "
+            "second partition, an L/R pair through the transcoder (also on an image file that ends inside the right half), the raw-sector image with one wiped sync pattern inside the first file, a three-sector pair with a contiguous left and a fragmented right half, lazy directory listings; Roland: forward + reverse-mode "
             "sample + listing of another performance, a shared sample with a leading-cluster offset, two samples living in one fragmented chain, two reverse-mode samples and a reverse-mode L/R pair, four pairs in which the left half's start point equals the address of the right half's first cluster; CDDA: three tracks): ALL interleavings of the participants' call programs "
             "(block reads of 1, 2, 4096, sector-1, sector+1 bytes and of 6146..30000 bytes over files of five sectors / four clusters, sector-aligned reads of a contiguous file that end "
             "exactly on a sector boundary, read-to-end requests, absolute seeks, ls of unrealised directories, transcoder "
